@@ -142,7 +142,7 @@ def c12_tasks(pid, tier, repo, seed, R):
 
 
 def c11_tasks(pid, tier, repo, seed, R):
-    return value_tasks(pid, tier, repo, seed, R) + def_tasks(pid, tier, repo, seed, R, ["_validate"])
+    return value_tasks(pid, tier, repo, seed, R) + def_tasks(pid, tier, repo, seed, R, ["_validate", "_update"])
 
 
 def c08_tasks(pid, tier, repo, seed, R):
@@ -167,7 +167,7 @@ def c19_tasks(pid, tier, repo, seed, R):
 
 
 def c16_tasks(pid, tier, repo, seed, R):
-    tasks = def_tasks(pid, tier, repo, seed, R, ["_to_base", "_from_base"])
+    tasks = def_tasks(pid, tier, repo, seed, R, ["_to_base", "_from_base", "_update"])
     cl = concrete_classes(R)
     pick = cl if tier == "thorough" else [c for c in cl if c in ("JSONDict", "JSONList", "MemoryBufferedJSONAttrDict", "BufferedJSONList")]
     sweeps = [(f"{c}:aliasing", "replay/c16_replay.py", ["search", c],
@@ -186,7 +186,7 @@ def c18_tasks(pid, tier, repo, seed, R):
                           label=f"C18:protected:{c}"))
         for role, rk in (("root", None), ("nested", "dict"), ("nested", "list")):
             tasks.append(dict(kind="api", repo=repo, seed=seed, cname=c, role=role, rootkind=rk,
-                              methods=["__setattr__", "__delattr__", "__getattr__"], props=["C18", "C03", "C01"],
+                              methods=["__setattr__", "__delattr__", "__getattr__"], props=["C18", "C03", "C01", "C02", "C04"],
                               rename_to="C18", threads=True, label=f"C18:attr:{c}:{role}{rk or ''}"))
     # (c) internal attribute stores + family of created nodes: every public method and the constructors
     for c in concrete_classes(R):
